@@ -102,7 +102,7 @@ def judge_output(out, lang, assign, by_name, counts):
     eat_open = eff(assign, by_name, 'eat_blanks_after_open_brace') == 'true'
     eat_close = eff(assign, by_name, 'eat_blanks_before_close_brace') == 'true'
     exempt = int(eff(assign, by_name, 'nl_inside_empty_func')) > 0 or int(eff(assign, by_name, 'nl_inside_namespace')) > 0
-    if (eat_open or eat_close) and not exempt and asked == 0:
+    if (eat_open or eat_close) and not exempt:
         import bisect
         starts = [li['start'] for li in lines]
         by_line_last = {}
@@ -132,13 +132,222 @@ def judge_output(out, lang, assign, by_name, counts):
     return v, st
 
 
+EAT_HOSTS = {
+    'CPP': b"""#include <vector>
+
+namespace outer
+{
+
+namespace inner
+{
+
+struct P
+{
+
+   int a;
+
+   int b;
+
+};
+
+class K
+{
+
+public:
+
+   K();
+
+   int m() const;
+
+private:
+
+   int v;
+
+};
+
+typedef int T1;
+
+typedef long T2;
+
+enum E
+{
+
+   A,
+   B
+
+};
+
+int f(int a)
+{
+
+   int x = a;
+
+   int y = 2;
+
+   if (a)
+   {
+
+      x++;
+
+   }
+
+   switch (x)
+   {
+
+   case 1:
+
+      y++;
+
+      break;
+
+   }
+
+   return x + y;
+
+}
+
+}
+
+}
+
+extern "C"
+{
+
+int g(void);
+
+}
+
+int g(void)
+{
+
+}
+""",
+    'C': b"""struct s
+{
+
+   int a;
+
+};
+
+typedef int T1;
+
+static int f(int a)
+{
+
+   int x = a;
+
+   /* c */
+
+   if (a)
+   {
+
+      x++;
+
+   }
+   else
+   {
+
+      x--;
+
+   }
+
+   do
+   {
+
+      x++;
+
+   } while (x < 3);
+
+   return x;
+
+}
+
+#if A
+
+int g(void)
+{
+
+}
+
+#endif
+""",
+    'CS': b"""using System;
+
+namespace N
+{
+
+   namespace M
+   {
+
+      public class A
+      {
+
+         public int P
+         {
+
+            get { return 1; }
+
+            set { }
+
+         }
+
+         int F(int a)
+         {
+
+            try
+            {
+
+               a++;
+
+            }
+            catch (Exception)
+            {
+
+            }
+
+            return a;
+
+         }
+
+      }
+
+   }
+
+}
+""",
+    'JAVA': b"""package p;
+
+public class A
+{
+
+   private int x;
+
+   public int f(int a)
+   {
+
+      if (a > 0)
+      {
+
+         return a;
+
+      }
+
+      return x;
+
+   }
+
+}
+""",
+}
+
+
 def usable(x):
     return not (b'INDENT-O' in x or b'asm' in x or b'\x00' in x or x[:2] in (b'\xff\xfe', b'\xfe\xff'))
 
 
 def _case(t):
     cid, rel, lang, variant, assign = t
-    x = NL.sub(b'\n', corpus.read(rel))
+    x = EAT_HOSTS[rel[5:]] if rel.startswith('host:') else NL.sub(b'\n', corpus.read(rel))
     if not usable(x):
         return dict(cid=cid, status='skipped')
     if not tokoracle.well_lexed(lex.lex(x, lang)):
@@ -237,6 +446,16 @@ def check(ctx):
                      'nl_end_of_file': fr.choice(['ignore', 'add', 'remove', 'force']), 'nl_end_of_file_min': str(fr.randint(0, 3) if N == 0 else fr.randint(0, min(3, N))),
                      'eat_blanks_after_open_brace': fr.choice(['true', 'false']), 'eat_blanks_before_close_brace': fr.choice(['true', 'false'])}
                 tasks.append(('core:%s:%d:%s' % (rel, N, so), rel, lang, 1 + fr.randrange(3), a))
+    # eat_blanks_* against every blank-line count option (and the newline add options) on hosts rich in brace pairs
+    for o in counts:
+        for val in ('1', '2', '3'):
+            for h in sorted(EAT_HOSTS):
+                a = {'eat_blanks_after_open_brace': 'true', 'eat_blanks_before_close_brace': 'true', o.name: val}
+                tasks.append(('eatsweep:%s=%s:host:%s' % (o.name, val, h), 'host:' + h, h, 0, a))
+            if not quick:
+                for rel, lang in fixed_rng(PROP, 'eatfiles:' + o.name).sample(files, 12):
+                    a = {'eat_blanks_after_open_brace': 'true', 'eat_blanks_before_close_brace': 'true', o.name: val}
+                    tasks.append(('eatsweep:%s=%s:%s' % (o.name, val, rel), rel, lang, 1, a))
     U = 90000
     ctx.extra['universe'] = U
     for i in sr.sample(range(U), 12000 if quick else U):
@@ -287,7 +506,7 @@ def check(ctx):
         ctx.sample(dict(case=r['cid'], blank_runs=r['stats']['runs'], longest_run=r['stats']['max_run']))
     ctx.assumptions += ['a run is judged against nl_max only when every blank-line count option of the config is <= nl_max (the statement\'s proviso)',
                         'runs before the first and after the last token are judged by the start/end-of-file clause only',
-                        'eat_blanks_* is judged only when no blank-line count option is set (nl_before_struct=2 etc. legitimately ask for a blank line that may sit next to a brace)',
+                        'eat_blanks_* is judged whatever the other options say (the statement has no proviso for it); count options that win against it on the pinned tree are listed findings',
                         'files with disabled regions or UTF-16 are left to C07/C09']
     ctx.require('status_ok', 3000)
     ctx.require('observed_blank_runs', 20000)
